@@ -6,7 +6,7 @@ from ..core import AnalysisError, u, walk_local, enclosing_stmt
 from ..lib import (construct, std_facts, facts_at, def_of, calls_of_node,
                    copy_kind, in_subtree, stored_names)
 from ..resolve import store_accesses
-from .common import scope_entry
+from .common import scope_entry, allowed_stores
 from .wrapper import WrapperModel
 
 
@@ -157,7 +157,14 @@ def prefix_form(val, SC):
 def run(ctx):
   prog = ctx.prog
   ctx.assume('T3')
-  overlay(ctx)
+  allowed_stores(ctx, 'C01.fresh', {
+      'config._get_bindings': {'_CONFIG'},
+      'config._make_gin_wrapper': {'_RENAMED_SELECTORS', '_OPERATIVE_CONFIG', '_OPERATIVE_CONFIG_LOCK', '_REGISTRY'},
+      'config.config_scope': {'_SCOPE_MANAGER'},
+      'config.current_scope': {'_SCOPE_MANAGER'},
+  }, 'the injected values must be a function of the binding store and the active scope at call time only; a cache or side table '
+     'goes stale when a binding under a shorter scope prefix is added or changed later')
+  ctx.section(overlay, ctx)
   w = WrapperModel(ctx)
   f, g, facts = w.f, w.g, w.facts
   con = construct(f)
